@@ -237,7 +237,18 @@ def edit_order_rule(prog, res):
         out = [g.vertex_of.get(n['id']) for n in f.nodes if pred(n)]
         return [x for x in out if x is not None]
     name_chk = v_of(lambda n: n['k'] == 'CXXThrowExpr' and n.get('throw_t') == 'std::invalid_argument' and not any(f.nodes[a]['k'] == 'CXXCatchStmt' for a in f.ancestors(n['id'])))
-    create = v_of(lambda n: n['k'] == 'CXXMemberCallExpr' and n['callee']['qname'] == PS + '::group' and not n['callee'].get('const'))
+    def creates_group(n, depth=0):
+        if n['k'] != 'CXXMemberCallExpr' and n['k'] != 'CallExpr':
+            return False
+        cal = n.get('callee', {})
+        if cal.get('qname') == PS + '::group' and not cal.get('const') and n['k'] == 'CXXMemberCallExpr':
+            return True
+        # ... or a member of c3d / file-local helper that does it (find-or-create helper)
+        h = prog.funcs.get(cal.get('usr')) if cal.get('inrepo') else None
+        if h is None or h.body is None or depth > 2 or not (h.cls == 'ezc3d::c3d' or h.rec.get('internal') or '(anonymous namespace)' in h.qname) or h.qname in ('ezc3d::c3d::updateHeader', 'ezc3d::c3d::updateParameters'):
+            return False
+        return any(creates_group(m, depth + 1) for m in h.calls())
+    create = v_of(creates_group)
     store = v_of(lambda n: n['k'] == 'CXXMemberCallExpr' and n['callee']['qname'] == G + '::parameter' and not n['callee'].get('const') and n['callee']['nparams'] == 1)
     upd = v_of(lambda n: n['k'] == 'CXXMemberCallExpr' and n['callee']['qname'] == 'ezc3d::c3d::updateHeader')
     ok = len(store) == 1 and len(upd) == 1 and len(create) == 1 and name_chk
@@ -279,6 +290,29 @@ def edit_order_rule(prog, res):
             cr_in_catch = True
         ok = cr_in_catch and store[0] in g.reach([create[0]]) and g.NEXIT not in g.reach([store[0]], avoid={upd[0]}) and g.dominates(store[0], upd[0])
         why = 'the group must be created only when the name look-up failed, then the parameter stored, then the header updated'
+        # both refusals (unnamed, untyped) are decided before a group can be created
+        if ok:
+            tests = {'name': None, 'type': None}
+            for i_ in f.all_nodes({'IfStmt'}):
+                if not any(f.nodes[x]['k'] == 'CXXThrowExpr' for x in f.descendants(i_['then'])):
+                    continue
+                c_ = R.render(i_['cond'])
+                kind_ = 'type' if ('_data_type' in c_ or '.type()' in c_) else ('name' if ('_name' in c_ or '.name()' in c_) else None)
+                cvx = g.vertex_of.get(f.strip(i_['cond'], 'all'))
+                if kind_ and cvx is not None and tests[kind_] is None:
+                    tests[kind_] = cvx
+            for kind_, what in (('name', 'unnamed'), ('type', 'untyped')):
+                if tests[kind_] is None:
+                    import validators
+                    if any(validators.summary(prog, c_['callee'].get('usr')) for c_ in f.calls() if c_['callee'].get('inrepo') and g.vertex_of.get(c_['id']) is not None and g.dominates(g.vertex_of[c_['id']], create[0])):
+                        continue   # a validating helper called before the creation: judged by C10's ordering rule
+                    ok = False
+                    why = 'nothing refuses an %s parameter before the group can be created: a refused call leaves a new empty group behind' % what
+                    break
+                if not g.dominates(tests[kind_], create[0]):
+                    ok = False
+                    why = 'the group can be created before the %s parameter is refused: a refused call leaves a new empty group behind' % what
+                    break
         # the stored group is the one looked up by the caller's group name
         sn = f.nodes[g.node_of(store[0])]
         so = R.render(f.call_obj(sn))
@@ -530,7 +564,19 @@ def longest_string_rule(prog, res, rule='validate-first'):
 
 
 def consistency_width_rule(prog, res):
-    f = prog.fn(PR + '::isDimensionConsistent', nparams=2)
+    f0 = prog.fn(PR + '::isDimensionConsistent', nparams=2)
+    n = 0
+    fam = [f0]
+    for c_ in f0.calls():
+        h = prog.funcs.get(c_['callee'].get('usr')) if c_['callee'].get('inrepo') else None
+        if h is not None and h.body is not None and h not in fam and (h.rec.get('internal') or '(anonymous namespace)' in h.qname or (h.cls == PR and h.rec.get('access') in ('private', 'protected'))):
+            fam.append(h)
+    for f in fam:
+        n += _consistency_width(prog, res, f)
+    res.minimum('product accumulators in isDimensionConsistent', n, 1)
+
+
+def _consistency_width(prog, res, f):
     R = Renderer(f)
     # every comparison that decides the return value compares full-width values; products that feed a
     # comparison with the element count are accumulated in a type at least as wide as the dimensions
@@ -567,7 +613,7 @@ def consistency_width_rule(prog, res):
             else:
                 res.viol('consistency', inst, f.loc(c['id']), 'std::accumulate accumulates in the type of its initial value, %s (%s/%s bits): the product of the dimensions is truncated' %
                          (ini.get('t'), ini.get('tc'), ini.get('tw')), function=f.sig, expr='acc:accumulate')
-    res.minimum('product accumulators in isDimensionConsistent', n, 1)
+    return n
 
 
 def lock_rule(prog, res):
